@@ -197,6 +197,8 @@ pub struct WorldCfg {
     pub seed: u64,
     /// Number of tracer threads sharing this world (baton scheduling if > 1).
     pub tracers: usize,
+    /// Further addresses that answer as targets at the end of the same path.
+    pub alt_targets: Vec<IpAddr>,
 }
 
 // ------------------------------------------------------------------------------------------------
@@ -650,7 +652,7 @@ impl WorldInner {
     fn route(&mut self, wp: &WirePacket) -> (Vec<PktId>, Option<(u64, RespKind)>) {
         let topo = self.cfg.topo.clone();
         let mut out = Vec::new();
-        if wp.dst != topo.target_addr() || wp.ttl == 0 {
+        if (wp.dst != topo.target_addr() && !self.cfg.alt_targets.contains(&wp.dst)) || wp.ttl == 0 {
             return (out, None);
         }
         // flow tuple for ECMP
@@ -742,7 +744,7 @@ impl WorldInner {
         };
         let lost = spec.loss_pct > 0 && self.rng.chance(u64::from(spec.loss_pct), 100);
         let delay = self.uniform(spec.delay_ns);
-        let responder = spec.addrs[(fh(hop_idx as u64) % spec.addrs.len() as u64) as usize];
+        let responder = if is_target { wp.dst } else { spec.addrs[(fh(hop_idx as u64) % spec.addrs.len() as u64) as usize] };
         if !respond {
             return (out, None);
         }
